@@ -205,6 +205,9 @@ def merge_collector(ctx, col):
         ctx.report(*f)
     ctx.notes.extend(col.notes)
     for k, v in col.extra.items():
+        if k == 'W':
+            ctx.extra['W_all'] = sorted(set(ctx.extra.get('W_all', [])) | set(v))
+            continue
         if isinstance(v, (int, float)) and isinstance(ctx.extra.get(k), (int, float)):
             ctx.extra[k] += v
         else:
